@@ -106,7 +106,9 @@ class C06(LoopSpec):
         return [mkjob("R1", 6, True), mkjob("R2", 5, True, sym_shutdown=True), mkjob("R3", 6, False),
                 mkjob("R2", 4, True, raw_words=True), mkjob("R1", 3, True, change_at_dispatch=True), mkjob("R4", 5, True), mkjob("R6", 4, True),
                 mkjob("R2", 4, True, fms=True, faults=2, fault_patterns=["first", "always"],
-                      fault_sites=["c1.on_disable", "c1.on_enable", "c2.on_disable", "c2.on_enable", "c1.execute"])]
+                      fault_sites=["c1.on_disable", "c1.on_enable", "c2.on_disable", "c2.on_enable", "c1.execute"]),
+                mkjob("R1", 4, True, fms=True, faults=1, fault_patterns=["first", "later", "always"],
+                      fault_sites=["robot.autonomousInit", "robot.teleopInit", "robot.disabledInit", "robot.testInit", "auto.on_enable"])]
 
     def reach_required(self, tier):
         return ["startup", "enter-teleop", "enter-auto", "enter-disabled", "enter-test", "execute-bracket",
@@ -158,7 +160,9 @@ class C07(LoopSpec):
                 mkjob("R2", 3, True, fms="per-refresh", faults=1, fault_patterns=["always", "later"]),
                 mkjob("R1", 4, True, fms="sym", faults=1, fault_patterns=["first", "always"], fault_kind="base"),
                 mkjob("R2", 3, True, fms="sym", faults=1, fault_patterns=["first", "later"], fault_kind="any"),
-                mkjob("R2", 3, True, fms=False, faults=2, fault_patterns=["always", "later"])]
+                mkjob("R2", 3, True, fms=False, faults=2, fault_patterns=["always", "later"]),
+                mkjob("R1", 4, True, fms=True, c_raiser="c1.on_enable"), mkjob("R1", 4, True, fms=True, c_raiser="c1.on_disable"),
+                mkjob("R3", 3, True, fms=True, c_raiser="c1.execute")]
 
     def reach_required(self, tier):
         return ["fault-swallowed", "fault-propagated", "no-fault-fired", "iteration-auto", "iteration-teleop",
